@@ -10,7 +10,7 @@ ID = "C13"
 MODULE = "HttpcoreModel.Props.C13"
 THEOREMS = [f"Httpcore.C13.{n}" for n in ("upload_in_order", "send_within_window", "windows_charged", "stops_only_on_closed_window",
                                            "waits_iff_no_window", "send_takes_min", "consume_inv", "process_inv", "credit_returned",
-                                           "increment_exact", "ack_uses_flow_controlled_length")]
+                                           "increment_exact", "ack_uses_flow_controlled_length", "shared_window_respected", "each_upload_in_order")]
 TRUSTED = [
     "Lean 4.33 kernel; axioms per theorem under coverage.theorems",
     "hand-written model H2.sendData (the send loop) and H2.Win (h2's WindowManager); the wait-loop test, the min(window, frame size) expression "
@@ -26,8 +26,9 @@ LEVEL_TEXT = ("Lean 4 theorems for every window state (incl. negative stream win
               "on a closed window; receive side: window + in-hand + acknowledged = maximum is invariant, and after acknowledging everything more "
               "than half the maximum window is open again. Tied by DATA-size differential on real uploads, WindowManager lock-step, exploration "
               "with manual credit / window shrinking / padding, and downloads beyond the 16 MiB credit.")
-LEVEL_NOTE = ("Partial: one upload's loop is modelled; several uploads sharing the connection window and the interplay with the reader are explored "
-              "on the real connection, not proved. Completion additionally needs a fair server.")
+LEVEL_NOTE = ("Partial: the send loop is modelled for one upload (tied by the frame-size differential) and for any number of uploads interleaved "
+              "on one connection window (shared_window_respected, each_upload_in_order; tied by exploration only); the interplay with the "
+              "reader and the locks is explored, not proved. Completion additionally needs a fair server.")
 TECHNIQUE = "Lean 4 proof (functional induction over the send loop, window invariant) + Tie A + differential on frame sizes + interactive h2 exploration"
 DESIGN_REF = "§5 C13"
 
